@@ -358,7 +358,7 @@ func (r *Round) UpdateNotarizedBlock(b *block.Block) {
 	// update notarized block
 	for i, nb := range r.notarizedBlocks {
 		if nb.Hash == b.Hash {
-			r.notarizedBlocks[i] = nb
+			r.notarizedBlocks[i] = b
 		}
 	}
 }
